@@ -283,6 +283,8 @@ def run_enc_vector(i, v):
     u = v['u']
     if v['sub'] == 'srpol':
         cls = 'srpol-%s-l%d-s%s' % (u['enc'], len(u['lists']), '.'.join(str(len(sl['segs'])) for sl in u['lists']))
+    elif v['sub'] == 'evpnmac':
+        cls = 'evpnmac-%s-%s' % (u['style'], 'reach' if u['reach'] else 'unreach')
     elif v['sub'] == 'v6ll':
         cls = 'v6ll-%s-n%d' % (u['ll'], len(u['ps']))
     elif v['sub'] == 'evpn5':
@@ -390,7 +392,32 @@ def run_mpdec_vector(i, v):
     return line
 
 
+def run_fsdec_vector(i, v):
+    """flowspec rules in encodings the agent never emits (8-octet operator values): decode only (C09)"""
+    ref = bytes(v['b'])
+    u = v['u']
+    line = {'id': i, 'kind': 'mpdec', 'cls': 'fs8-%s-n%d' % ('reach' if u['reach'] else 'unreach', len(u['rules'])),
+            'asn4': True, 'ref': list(ref), 'impl': [], 'raised': False, 'none': False, 'rt_ok': False, 'dec_ok': False, 'dec_err': False, 'diff': '', 'ddiff': ''}
+    rules = [M.fs_rule(r) for r in u['rules']]
+    if u['reach']:
+        exp = {'attr': {1: 0, 2: [(2, [65001])], 14: {'afi_safi': (1, 133), 'nexthop': '', 'nlri': rules}}, 'nlri': [], 'withdraw': []}
+    else:
+        exp = {'attr': {15: {'afi_safi': (1, 133), 'withdraw': rules}}, 'nlri': [], 'withdraw': []}
+    try:
+        d = Update.parse(0, ref[19:], True)
+        dd = diff(exp, d)
+        if d.get('sub_error'):
+            dd = dd or 'sub_error=%r' % (d['sub_error'],)
+        line['dec_ok'] = dd == ''
+        line['ddiff'] = dd[:300]
+    except Exception as e:
+        line['ddiff'] = 'raised %r' % (e,)
+    return line
+
+
 def _run_vector(i, v):
+    if v['kind'] == 'fsdec':
+        return run_fsdec_vector(i, v)
     if v['kind'] == 'mpdec':
         return run_mpdec_vector(i, v)
     if v['kind'] == 'updspell':
